@@ -1,5 +1,104 @@
-/- C10 — theorems under construction. -/
-import BEI.Model.App
+/-
+  C10 — Reported elapsed and fired durations follow the action's state history.
+  `ActionData.update` is the only place durations change; `t.delta` is the frame's virtual delta (`virtualTick`).
+-/
+import BEI.Proofs.Basic
 namespace BEI.Props.C10
-theorem placeholder_true : True := trivial
+open BEI
+
+/-- on the frame an action leaves None (and on every frame it rests in None) both durations are zero -/
+theorem from_none (d : ActionData) (t : Tick) (st : AState) (v : Value) (h : d.state = .none) :
+    (d.update t st v).elapsed = 0 ∧ (d.update t st v).fired = 0 := by
+  simp [ActionData.update, h]
+
+/-- on every later frame of the episode — including the terminal one — elapsed grows by exactly the frame's virtual
+    delta, and fired grows by that delta if the action was Fired after the previous frame and is zero otherwise -/
+theorem later_frames (d : ActionData) (t : Tick) (st : AState) (v : Value) (h : d.state ≠ .none) :
+    (d.update t st v).elapsed = d.elapsed + t.delta
+    ∧ (d.update t st v).fired = (if d.state = .fired then d.fired + t.delta else 0) := by
+  cases hs : d.state <;> simp_all [ActionData.update]
+
+/-- a step of a state history: the frame's tick, the new state and value (driven by arbitrary conditions) -/
+abbrev Step := Tick × AState × Value
+
+/-- the action data after a whole history -/
+def run (d : ActionData) (steps : List Step) : ActionData :=
+  steps.foldl (fun d s => d.update s.1 s.2.1 s.2.2) d
+
+/-- for every history with non-negative deltas (zero deltas, pauses and speed changes included):
+    `0 ≤ fired ≤ elapsed` at every point -/
+theorem durations_ordered (steps : List Step) (hpos : ∀ s ∈ steps, 0 ≤ s.1.delta) :
+    ∀ (d : ActionData), 0 ≤ d.fired → d.fired ≤ d.elapsed →
+      0 ≤ (run d steps).fired ∧ (run d steps).fired ≤ (run d steps).elapsed := by
+  induction steps with
+  | nil => intro d h1 h2; exact ⟨h1, h2⟩
+  | cons s rest ih =>
+    intro d h1 h2
+    simp only [run, List.foldl_cons]
+    have hs : 0 ≤ s.1.delta := hpos s (by simp)
+    apply ih (fun x hx => hpos x (by simp [hx]))
+    · cases hst : d.state <;> simp [ActionData.update, hst] <;> grind
+    · cases hst : d.state <;> simp [ActionData.update, hst] <;> grind
+
+theorem durations_ordered_from_new (dim : Dim) (steps : List Step) (hpos : ∀ s ∈ steps, 0 ≤ s.1.delta) :
+    0 ≤ (run (ActionData.new dim) steps).fired
+    ∧ (run (ActionData.new dim) steps).fired ≤ (run (ActionData.new dim) steps).elapsed := by
+  apply durations_ordered steps hpos <;> simp [ActionData.new]
+
+/-- both durations are zero while the action rests in None: after a None → None step, whatever happened before -/
+theorem resting_zero (d : ActionData) (s1 s2 : Step) (h1 : s1.2.1 = .none) :
+    ((d.update s1.1 s1.2.1 s1.2.2).update s2.1 s2.2.1 s2.2.2).elapsed = 0
+    ∧ ((d.update s1.1 s1.2.1 s1.2.2).update s2.1 s2.2.1 s2.2.2).fired = 0 := by
+  apply from_none
+  simp [ActionData.update, h1]
+
+/-- elapsed over an episode is the sum of the deltas of its frames after the first: closed form over any run of
+    consecutive non-None states -/
+theorem elapsed_is_sum (d : ActionData) (steps : List Step) (hd : d.state ≠ .none)
+    (hall : ∀ s ∈ steps.dropLast, s.2.1 ≠ .none) :
+    (run d steps).elapsed = d.elapsed + (steps.map (·.1.delta)).sum := by
+  induction steps generalizing d with
+  | nil => simp [run, Rat.add_zero]
+  | cons s rest ih =>
+    simp only [run, List.foldl_cons, List.map_cons, List.sum_cons]
+    cases rest with
+    | nil => simp [(later_frames d s.1 s.2.1 s.2.2 hd).1, Rat.add_zero]
+    | cons s' rest' =>
+      have hs : s.2.1 ≠ .none := hall s (by simp [List.dropLast])
+      have hd' : (d.update s.1 s.2.1 s.2.2).state ≠ .none := by simpa [ActionData.update] using hs
+      have := ih (d.update s.1 s.2.1 s.2.2) hd' (fun x hx => hall x (by simp [List.dropLast, hx]))
+      simp only [run] at this
+      rw [this, (later_frames d s.1 s.2.1 s.2.2 hd).1]
+      simp only [List.map_cons, List.sum_cons]
+      grind
+
+/-- the virtual delta of a frame is non-negative whenever the raw delta and the relative speed are (also when paused
+    or at speed zero), and never exceeds `max_delta * speed` -/
+theorem virtualTick_nonneg (raw speed : Rat) (paused : Bool) (h1 : 0 ≤ raw) (h2 : 0 ≤ speed) :
+    0 ≤ (virtualTick raw speed paused).delta := by
+  unfold virtualTick
+  simp only
+  split <;> cases paused <;> simp <;> apply Rat.mul_nonneg <;> grind
+
+theorem virtualTick_paused (raw speed : Rat) : (virtualTick raw speed true).delta = 0 := by
+  simp [virtualTick]
+
+/-- the durations carried by the events equal the polled ones (see also C01.mkDelivery_payload) -/
+theorem payload_durations (a : Nat) (d : ActionData) (k : EvKind) (e : Nat) :
+    (∀ q, (mkDelivery a d k e).elapsed = some q → q = d.elapsed) ∧ (∀ q, (mkDelivery a d k e).fired = some q → q = d.fired) := by
+  cases k <;> simp [mkDelivery]
+
+/-- the closing event of a deactivation carries the stored durations plus the last frame's delta, like any terminal frame -/
+theorem closing_durations (d : ActionData) (t : Tick) (dim : Dim) (h : d.state ≠ .none) :
+    (d.update t .none (Value.zero dim)).elapsed = d.elapsed + t.delta := (later_frames d t .none _ h).1
+
+/-- non-vacuity: None → Ongoing → Fired → Fired → None with deltas 1/64, 0, 1/32, 1/16 -/
+example :
+    let steps : List Step := [(⟨1/64, 1⟩, .ongoing, .bool true), (⟨0, 1⟩, .fired, .bool true),
+                              (⟨1/32, 1⟩, .fired, .bool true), (⟨1/16, 1⟩, .none, .bool false)]
+    let d := run (ActionData.new .bool) steps
+    d.elapsed = 0 + 0 + 1/32 + 1/16 ∧ d.fired = 1/32 + 1/16 := by
+  simp [run, ActionData.update, ActionData.new]
+  grind
+
 end BEI.Props.C10
